@@ -79,6 +79,11 @@ CHECKS = {
     note="Trusts TLC/SANY, Go toolchain, pool hooks, GC disabled during recording (addresses identify objects). File and rolling sinks are checked by content only. Real-concurrency runs sample schedules; the trace invariants are schedule-independent.",
     technique="TLA+ spec (SyncPath) model-checked with TLC; recorded executions validated by TLC against Trace_SyncPath; gated replay of the counterexample schedule",
     design="4/C03", engine="syncrec"),
+ "C20": dict(
+    text="CrashPath.tla models calls that format, hand the line to the kernel with one write and return, with Crash (SIGKILL / os.Exit) enabled in every state and user-space buffers discarded by it; TLC checks AckedSurvive and NoUserBuffer, confirms that the buffered variant still violates AckedSurvive, and enumerates every crash placement (k acknowledged calls x kill/exit) for three goroutine/call shapes. Each placement is executed on a child process (sync logger -> file / rolling-file / console appender, both layouts) that acknowledges every returned call on a pipe; after the kill/exit every acknowledgement the parent read must have its complete line in the target exactly once. Direction B: six straced runs - the write(2) log is the trace and TLC validates it against Trace_Crash.tla (each acknowledgement preceded by exactly one write carrying the whole line); a trace with one acknowledgement moved before its write must be rejected.",
+    note="Trusts TLC/SANY, Go toolchain, strace (ptrace permitted in the sandbox), and that a returned write(2) survives process death (not power loss: the property speaks about process crash/exit).",
+    technique="TLA+ spec (CrashPath) model-checked with TLC; crash placements replayed on a child process; strace system-call traces validated by TLC (Trace_Crash)",
+    design="4/C20", engine="crash"),
 }
 
 NOT_YET = {}
